@@ -613,3 +613,43 @@ def explore(fn, base=(), max_leaves=4000):
         finally:
             CTX.pop(n)
     return leaves
+
+
+class TraceFork:
+    """decision script for data-dependent branches (bool() of a symbolic real condition) in traced code"""
+    def __init__(self, script):
+        self.script = list(script)
+        self.pos = 0
+        self.conds = []
+        self.fresh_from = len(script)
+
+    def decide_real(self, b):
+        if self.pos < len(self.script):
+            d = self.script[self.pos]
+        else:
+            d = True
+            self.script.append(True)
+        self.pos += 1
+        self.conds.append(b if d else ~b)
+        return d
+
+
+def run_forked(fn, max_paths=64):
+    """execute fn() once per feasible decision script; returns [(path conditions (B terms), result)]"""
+    results = []
+    pending = [[]]
+    while pending:
+        script = pending.pop()
+        tf = TraceFork(script)
+        old = CTX.trace_fork
+        CTX.trace_fork = tf
+        try:
+            r = fn()
+        finally:
+            CTX.trace_fork = old
+        results.append((list(tf.conds), r))
+        for i in range(tf.fresh_from, len(tf.script)):
+            pending.append(tf.script[:i] + [False])
+        if len(results) > max_paths:
+            raise OutOfReach('more than %d trace paths' % max_paths)
+    return results
